@@ -312,18 +312,19 @@ def directed(rng):
         # so that the scenarios generated after this family stay the same)
         rng.choice(["collective", "individual"])
         out.append((js, "schedule", {"LOAD_STRAT": "collective", "ALLOW_NEGATIVE_SOC": True}))
+    rngd = random.Random("directed-9-12")     # private stream: families added later must not shift the scenarios drawn after them
     # D9: overdue vehicles - still plugged in at/after their estimated time of departure (the real departure comes later or
     # never), several of them behind one tight connector, stations rated below the vehicle curve (round-3 seeds C04-s7, C05-s8)
     for k9 in range(3):
-        n9 = rng.choice([6, 8])
-        iv = rng.choice([15, 60])
+        n9 = rngd.choice([6, 8])
+        iv = rngd.choice([15, 60])
         start = datetime.datetime.fromisoformat("2023-01-02T08:00:00" + scen.TZ)
-        lim = rng.choice([10, 16])
-        fixed = rng.choice([0, 2, 3])
-        nv = rng.choice([2, 3])
+        lim = rngd.choice([10, 16])
+        fixed = rngd.choice([0, 2, 3])
+        nv = rngd.choice([2, 3])
         js = {"scenario": {"start_time": scen.iso(start), "interval": iv, "n_intervals": n9},
               "components": {
-                  "vehicle_types": {"car": {"name": "car", "capacity": rng.choice([40, 60]), "charging_curve": [[0, 22], [1, 22]],
+                  "vehicle_types": {"car": {"name": "car", "capacity": rngd.choice([40, 60]), "charging_curve": [[0, 22], [1, 22]],
                                             "min_charging_power": 0, "battery_efficiency": 0.95}},
                   "vehicles": {}, "charging_stations": {},
                   "grid_connectors": {"GC1": {"max_power": lim, "cost": {"type": "fixed", "value": 0.3}}},
@@ -334,10 +335,10 @@ def directed(rng):
                                                       "values": [fixed] * n9}
         for i in range(nv):
             # estimated departure before the start (k9 = 0), or during the run while the real departure event comes later / never
-            etd = start + datetime.timedelta(minutes=iv * (rng.choice([-4, -2]) if k9 == 0 else rng.choice([1, 2])))
+            etd = start + datetime.timedelta(minutes=iv * (rngd.choice([-4, -2]) if k9 == 0 else rngd.choice([1, 2])))
             js["components"]["vehicles"]["car_%d" % i] = {"vehicle_type": "car", "connected_charging_station": "CS_%d" % i,
                                                           "estimated_time_of_departure": scen.iso(etd), "desired_soc": 1.0,
-                                                          "soc": rng.choice([0.1, 0.2])}
+                                                          "soc": rngd.choice([0.1, 0.2])}
             js["components"]["charging_stations"]["CS_%d" % i] = {"max_power": 11, "min_power": 0, "parent": "GC1"}
         if k9 == 2:
             js["events"]["vehicle_events"].append({"signal_time": scen.iso(start), "start_time": scen.iso(start + datetime.timedelta(minutes=iv * (n9 - 1))),
@@ -353,12 +354,12 @@ def directed(rng):
     # D10: look-ahead planning with several vehicles behind one connector whose limit binds; the first-planned vehicle is nearly
     # full on a tapering curve, the others want more than the head room (round-3 seed C04-s8); half the cases with a limit signal
     for k10 in range(2):
-        n10 = rng.choice([6, 8])
+        n10 = rngd.choice([6, 8])
         start = datetime.datetime.fromisoformat("2023-01-02T08:00:00" + scen.TZ)
         rating = 20
         js = {"scenario": {"start_time": scen.iso(start), "interval": 60, "n_intervals": n10},
               "components": {
-                  "vehicle_types": {"car": {"name": "car", "capacity": 40, "charging_curve": [[0, 11], [0.8, 11], [1, rng.choice([1, 2])]],
+                  "vehicle_types": {"car": {"name": "car", "capacity": 40, "charging_curve": [[0, 11], [0.8, 11], [1, rngd.choice([1, 2])]],
                                             "min_charging_power": 0, "battery_efficiency": 0.95}},
                   "vehicles": {}, "charging_stations": {},
                   "grid_connectors": {"GC1": {"max_power": rating if k10 == 0 else 10, "cost": {"type": "fixed", "value": 0.3}}},
@@ -366,7 +367,7 @@ def directed(rng):
               "events": {"fixed_load": {}, "local_generation": {}, "vehicle_events": [],
                          "grid_operator_signals": [{"signal_time": scen.iso(start), "start_time": scen.iso(start), "grid_connector_id": "GC1",
                                                     "max_power": 10}] if k10 == 0 else []}}
-        for i, s0 in enumerate([rng.choice([0.9, 0.93, 0.95]), 0.2, 0.3][:rng.choice([2, 3])]):
+        for i, s0 in enumerate([rngd.choice([0.9, 0.93, 0.95]), 0.2, 0.3][:rngd.choice([2, 3])]):
             js["components"]["vehicles"]["car_%d" % i] = {"vehicle_type": "car", "connected_charging_station": "CS_%d" % i,
                                                           "estimated_time_of_departure": scen.iso(start + datetime.timedelta(hours=n10 - 1 - i)),
                                                           "desired_soc": 1.0, "soc": s0}
@@ -375,13 +376,13 @@ def directed(rng):
             out.append((js, st, {}))
     # D11: flex_window / schedule with a V2G vehicle and no local surplus (round-3 seed C06-s7: look-ahead must not touch the real battery)
     for k11 in range(2):
-        js = scen.gen_scenario(rng, n_gc=1, n_veh=2, features={"v2g", "fixed"}, steps=8, interval=60)
+        js = scen.gen_scenario(rngd, n_gc=1, n_veh=2, features={"v2g", "fixed"}, steps=8, interval=60)
         gid = list(js["components"]["grid_connectors"])[0]
         start = datetime.datetime.fromisoformat(js["scenario"]["start_time"])
         for vt in js["components"]["vehicle_types"].values():
-            vt.update({"v2g": True, "v2g_power_factor": rng.choice([0.5, 1]), "discharge_limit": 0.3})
+            vt.update({"v2g": True, "v2g_power_factor": rngd.choice([0.5, 1]), "discharge_limit": 0.3})
         for v in js["components"]["vehicles"].values():
-            v.update({"soc": rng.choice([0.7, 0.8]), "desired_soc": 0.9})
+            v.update({"soc": rngd.choice([0.7, 0.8]), "desired_soc": 0.9})
         js["events"]["grid_operator_signals"] = [
             {"signal_time": scen.iso(start), "start_time": scen.iso(start + datetime.timedelta(hours=k)), "grid_connector_id": gid,
              "window": bool((k // 2) % 2)} for k in range(0, 8, 2)]
@@ -393,15 +394,15 @@ def directed(rng):
     # virtual vehicle built from its data)
     for k12 in range(2):
         start = datetime.datetime.fromisoformat("2023-01-02T08:00:00" + scen.TZ)
-        n12, iv = 8, rng.choice([15, 30])
+        n12, iv = 8, rngd.choice([15, 30])
         js = {"scenario": {"start_time": scen.iso(start), "interval": iv, "n_intervals": n12},
               "components": {
                   "vehicle_types": {"bus": {"name": "bus", "capacity": 200, "charging_curve": [[0, 150], [0.8, 150], [1, 15]], "battery_efficiency": 0.9}},
                   "vehicles": {"bus_0": {"vehicle_type": "bus", "soc": 0.9, "desired_soc": 1.0}},
-                  "grid_connectors": {"GC1": {"max_power": rng.choice([100, 200]), "cost": {"type": "fixed", "value": 0.3}}},
+                  "grid_connectors": {"GC1": {"max_power": rngd.choice([100, 200]), "cost": {"type": "fixed", "value": 0.3}}},
                   "charging_stations": {"CS_bus_0_opps": {"max_power": 150, "min_power": 0, "parent": "GC1"}},
-                  "batteries": {"BAT1": {"parent": "GC1", "capacity": rng.choice([100, 150]), "charging_curve": [[0, 60], [1, 60]], "soc": 0.2,
-                                         "efficiency": rng.choice([0.8, 0.7]), "min_charging_power": rng.choice([0, 5])}},
+                  "batteries": {"BAT1": {"parent": "GC1", "capacity": rngd.choice([100, 150]), "charging_curve": [[0, 60], [1, 60]], "soc": 0.2,
+                                         "efficiency": rngd.choice([0.8, 0.7]), "min_charging_power": rngd.choice([0, 5])}},
                   "photovoltaics": {}},
               "events": {"fixed_load": {}, "local_generation": {}, "grid_operator_signals": [],
                          "vehicle_events": [{"signal_time": scen.iso(start), "start_time": scen.iso(start + datetime.timedelta(minutes=iv * 4)),
